@@ -1246,6 +1246,78 @@ def part_html_pages(ctx, app):
                          % (hdr, len(struct[1]), len(ref_struct[1])), rep)
 
 
+STATIC_MISSING = ['/demo/static/nonexistent.js', '/demo/static/', '/demo/static/img', '/demo/static/site.css/x', '/demo/static/a b.css',
+                  '/demo/static/<c18m>.js', '/demo/static/%2e%2e/x', '/demo/static/x\r\nSet-Cookie: a=b', '/demo/static/x\x00y',
+                  '/demo/static/\xc3\xbc\xc3\xb1.css', '/demo/static//etc/passwd', '/demo/static/../static/site.css',
+                  '/demo/static/site.css']
+
+
+def server_paths_in(text, extra=()):
+    """absolute paths named in `text` that exist on this machine (two or more components), plus the given directories"""
+    found = [d for d in extra if d and d in text]
+    for m in re.finditer(r'(?<![\w:/.])/[\w.+-]+(?:/[\w.+-]+)+', text):
+        p = m.group(0)
+        parts = p.split('/')
+        for n in range(len(parts), 2, -1):
+            cand = '/'.join(parts[:n])
+            if os.path.exists(cand):
+                found.append(cand)
+                break
+    return found
+
+
+def part_demo_static(ctx, app, base):
+    """Deterministic probe (independent of the seed): the static-file branch of the demo service (DemoServer.handle) with names
+    that are no regular file (missing, a directory, below a file, markup, control characters, `..`), on the application with the
+    packaged templates and on an instance with `globals.template_dir` configured.  Oracle: complete answer (oracle_response) and no
+    textual body names a directory of the server (installation directory, configured template directory, configuration / cache
+    directory, any absolute path that exists on this machine) - property: `never contain a stack trace or file-system path of the
+    server`."""
+    from mapproxy.wsgiapp import make_wsgi_app
+    import shutil
+    inst = os.path.dirname(os.path.abspath(sys.modules['mapproxy'].__file__))
+    tpl = os.path.join(base, 'tpl')
+    app2 = None
+    try:
+        os.makedirs(os.path.join(tpl, 'demo', 'static', 'img'))
+        shutil.copy(os.path.join(inst, 'service', 'templates', 'demo', 'static', 'site.css'), os.path.join(tpl, 'demo', 'static', 'site.css'))
+        conf3 = os.path.join(base, 'mapproxy-tpl.yaml')
+        with open(conf3, 'w') as f:
+            f.write((CONF % {'base': base}).replace('globals:\n', 'globals:\n  template_dir: %s\n' % tpl, 1))
+        app2 = make_wsgi_app(conf3)
+    except Exception as e:  # noqa
+        ctx.problem('harness', 'the application with globals.template_dir could not be built: %r' % (e,))
+    for label, a in (('packaged templates', app), ('globals.template_dir configured', app2)):
+        if a is None:
+            continue
+        for i, p in enumerate(STATIC_MISSING):
+            hdr = {'wsgi.file_wrapper': True} if i % 2 else {}
+            UP['mode'] = 'ok'
+            res = call_app(a, p, None if i % 3 == 0 else '', hdr)
+            rep = {'service': 'demo.static', 'instance': label, 'PATH_INFO': p, 'QUERY_STRING': None if i % 3 == 0 else '', 'headers': hdr,
+                   'upstream': 'ok', 'status': res.get('status'),
+                   'body_head': repr(b''.join(res.get('chunks') or [])[:300]) if 'chunks' in res else None}
+            ctx.case(('demostatic', label, p), True, {'part': 'demostatic', 'instance': label, 'PATH_INFO': p})
+            kind = oracle_response(ctx, 'demo.static', res, rep, None, base, {}, [])
+            ctx.count('demostatic:status=' + (res.get('status') or 'raised')[:3])
+            if 'chunks' not in res or kind in ('leak', 'incomplete', 'raised'):
+                continue
+            code = (res.get('status') or '')[:3]
+            last = p == '/demo/static/site.css'
+            if (code == '200') != last or code not in ('200', '404'):
+                ctx.fail('service=demo,static-status', 'status %r for the static file name %r (%s)' % (res.get('status'), p,
+                         'an existing file' if last else 'not a regular file below the static directory'), rep)
+                continue
+            if code == '404':
+                try:
+                    text = b''.join(res['chunks']).decode('utf-8')
+                except UnicodeDecodeError:
+                    text = b''.join(res['chunks']).decode('latin-1')
+                named = server_paths_in(text, (inst, tpl, base, os.path.dirname(inst)))
+                if named:
+                    ctx.fail('service=demo,leak', 'the 404 answer for a missing static file names server path(s) %r' % (named[:3],), rep)
+
+
 def part_host(ctx):
     """Request.host / url_scheme / host_url against Escape.host / url_scheme / host_url on generated environs"""
     try:
@@ -1391,6 +1463,7 @@ def part_app(ctx, skeletons):
     part_welcome(ctx, app)
     part_capabilities(ctx, app)
     part_html_pages(ctx, app)
+    part_demo_static(ctx, app, base)
     bases = base_requests()
     appdocs = []
     stream = []
